@@ -239,6 +239,77 @@ def items_signal():
     return viols
 
 
+class _RaiseStop:
+    def __init__(self, bad):
+        self.bad = set(bad)
+
+    def __call__(self, v):
+        if v in self.bad:
+            raise StopIteration(f'user:{v}')
+        return v
+
+
+def _add10(v):
+    return v + 10
+
+
+def stop_iteration_sweep(nmax):
+    """An example whose evaluation raises StopIteration (e.g. a function calling next() on an empty iterator) is a failing
+    example like any other: dropped if the caught set covers it, otherwise the iteration ends with an error at its
+    position - never a silent end of data.  (Python turns a StopIteration that leaves a generator into a RuntimeError
+    whose cause is the StopIteration; both spellings are accepted, a clean end is not.)"""
+    import itertools
+    import lazy_dataset
+    viols, cnt = {}, 0
+
+    def bad(key, what, **kw):
+        viols.setdefault(key, common.Violation('C14', key, f'{kw}: {what}', {'engine': 'stop-iteration', **kw}))
+    specs = {'Exception': Exception, 'StopIteration': StopIteration, 'StopIteration+ValueError': (StopIteration, ValueError),
+             'ValueError': ValueError, 'default': None}
+    for n in range(1, nmax + 1):
+        vals = list(range(n))
+        for r in range(1, n + 1):
+            for F in itertools.combinations(vals, r):
+                for between in ('none', 'map', 'map-slice'):
+                    for sname, spec in specs.items():
+                        for mode in ('values', 'items'):
+                            cnt += 1
+                            ds = lazy_dataset.new({f'k{i}': i for i in vals}).map(_RaiseStop(F))
+                            exp = [v for v in vals if v not in F]
+                            first_bad = min(F)
+                            if between != 'none':
+                                ds = ds.map(_add10)
+                                exp = [v + 10 for v in exp]
+                            if between == 'map-slice':
+                                ds = ds[::-1]
+                                exp = exp[::-1]
+                                first_bad = max(F)
+                            ds = ds.catch() if spec is None else ds.catch(spec)
+                            covered = sname in ('Exception', 'StopIteration', 'StopIteration+ValueError')
+                            got, err = [], None
+                            try:
+                                for x in (ds.items() if mode == 'items' else ds):
+                                    got.append(x[1] if mode == 'items' else x)
+                            except BaseException as e:      # noqa: BLE001
+                                err = e
+                            kw = dict(n=n, failing=list(F), between=between, catch=sname, mode=mode)
+                            if covered:
+                                if err is not None or got != exp:
+                                    bad(f'stop-iteration/not-dropped/{mode}', f'got {got} then {type(err).__name__ if err else None}; '
+                                                                              f'expected {exp}', **kw)
+                            else:
+                                order = vals[::-1] if between == 'map-slice' else vals
+                                before = [v + (10 if between != 'none' else 0) for v in order[:order.index(first_bad)]]
+                                if err is None:
+                                    bad(f'stop-iteration/silent-end-of-data/{mode}', f'the iteration ended normally with {got}; example '
+                                        f'{first_bad} raised StopIteration, which {sname} does not cover', **kw)
+                                elif not (isinstance(err, StopIteration) or isinstance(err.__cause__, StopIteration)):
+                                    bad(f'stop-iteration/wrong-error/{type(err).__name__}/{mode}', f'{err!r}', **kw)
+                                elif got != before:
+                                    bad(f'stop-iteration/wrong-prefix/{mode}', f'got {got} before the error, expected {before}', **kw)
+    return cnt, list(viols.values())
+
+
 def run(tier):
     res = common.Result()
     depth = 2 if tier == 'quick' else 3
@@ -260,6 +331,9 @@ def run(tier):
     c2, v2 = repeated_iterations(3 if tier == 'quick' else 4)
     cnt += c2
     res.violations.extend(v2)
+    c3, v3 = stop_iteration_sweep(3 if tier == 'quick' else 5)
+    cnt += c3
+    res.violations.extend(v3)
     seqmc.shortest_first(res)
     res.coverage.update(
         states=total['states'] + cnt, transitions=total['transitions'] + 3 * cnt,
@@ -283,6 +357,10 @@ def replay(data):
         res.coverage.update(states=1, transitions=len(r['program']['ops']))
     elif r.get('engine') == 'repeated':
         c, v = repeated_iterations(r['n'])
+        res.violations = v
+        res.coverage.update(states=c, transitions=c)
+    elif r.get('engine') == 'stop-iteration':
+        c, v = stop_iteration_sweep(r['n'])
         res.violations = v
         res.coverage.update(states=c, transitions=c)
     elif r.get('engine') == 'filter-forms':
